@@ -53,15 +53,15 @@ macro_rules! forms_for {
         let e_bs = extra($ty, $name, &sc, big.clone(), true);
         let e_sb = extra($ty, $name, &sc, big.clone(), false);
         let tn = stringify!($t);
-        $r.op($name, &format!("val_{}", tn), &[$idx(0)], &[$idx(2)], &e_bs, |g| { g.$bank[2] = g.$bank[0].clone() $op s; Ret::none() });
+        $r.op($name, &format!("val_{}", tn), &[$idx(0)], &[$idx(2)], &e_bs, |g| { g.$bank[2] = g.$bank[0].roomy() $op s; Ret::none() });
         $r.op($name, &format!("ref_{}", tn), &[$idx(0)], &[$idx(2)], &e_bs, |g| { g.$bank[2] = &g.$bank[0] $op s; Ret::none() });
-        $r.op($name, &format!("val_ref{}", tn), &[$idx(0)], &[$idx(2)], &e_bs, |g| { g.$bank[2] = g.$bank[0].clone() $op &s; Ret::none() });
+        $r.op($name, &format!("val_ref{}", tn), &[$idx(0)], &[$idx(2)], &e_bs, |g| { g.$bank[2] = g.$bank[0].roomy() $op &s; Ret::none() });
         $r.op($name, &format!("ref_ref{}", tn), &[$idx(0)], &[$idx(2)], &e_bs, |g| { g.$bank[2] = &g.$bank[0] $op &s; Ret::none() });
-        $r.op($name, &format!("{}_val", tn), &[$idx(0)], &[$idx(2)], &e_sb, |g| { g.$bank[2] = s $op g.$bank[0].clone(); Ret::none() });
+        $r.op($name, &format!("{}_val", tn), &[$idx(0)], &[$idx(2)], &e_sb, |g| { g.$bank[2] = s $op g.$bank[0].roomy(); Ret::none() });
         $r.op($name, &format!("{}_ref", tn), &[$idx(0)], &[$idx(2)], &e_sb, |g| { g.$bank[2] = s $op &g.$bank[0]; Ret::none() });
-        $r.op($name, &format!("ref{}_val", tn), &[$idx(0)], &[$idx(2)], &e_sb, |g| { g.$bank[2] = &s $op g.$bank[0].clone(); Ret::none() });
+        $r.op($name, &format!("ref{}_val", tn), &[$idx(0)], &[$idx(2)], &e_sb, |g| { g.$bank[2] = &s $op g.$bank[0].roomy(); Ret::none() });
         $r.op($name, &format!("ref{}_ref", tn), &[$idx(0)], &[$idx(2)], &e_sb, |g| { g.$bank[2] = &s $op &g.$bank[0]; Ret::none() });
-        $r.op("clone", "clone", &[$idx(0)], &[$idx(2)], &format!("\"ty\":\"{}\"", $ty), |g| { g.$bank[2] = g.$bank[0].clone(); Ret::none() });
+        $r.op("clone", "clone", &[$idx(0)], &[$idx(2)], &format!("\"ty\":\"{}\"", $ty), |g| { g.$bank[2] = g.$bank[0].roomy(); Ret::none() });
         $r.op($name, &format!("assign_{}", tn), &[$idx(2)], &[$idx(2)], &e_bs, |g| { g.$bank[2] $opa s; Ret::none() });
     }};
 }
@@ -87,7 +87,7 @@ macro_rules! rem_into_prim {
         let ex = format!("{},\"hint\":[{}]", ex_sc("U", &[sc.clone()], "cr"), h);
         let tn = stringify!($t);
         $r.op("rem_prim", &format!("{}_assign_ref", tn), &[u(0)], &[], &ex, |g| { let mut x = s; x %= &g.u[0]; Ret::none().z(&[x.sc()]) });
-        $r.op("rem_prim", &format!("{}_assign_val", tn), &[u(0)], &[], &ex, |g| { let mut x = s; x %= g.u[0].clone(); Ret::none().z(&[x.sc()]) });
+        $r.op("rem_prim", &format!("{}_assign_val", tn), &[u(0)], &[], &ex, |g| { let mut x = s; x %= g.u[0].roomy(); Ret::none().z(&[x.sc()]) });
     }};
 }
 
